@@ -275,6 +275,42 @@ def job_reject(_):
     return out
 
 
+RENAME_BASE = "w = 0\ny = 0\nwhile true:\n    w = w + 1 {1/2} w\n    y = y + w\nend\n"
+RENAME_TO = ["e", "pi", "oo", "nan", "inf", "gamma", "beta", "zeta", "lambda", "continue", "i", "s", "ln", "re", "im", "abs", "max", "true1", "x1"]
+
+
+def job_rename(_):
+    """renaming a variable never changes the analysis: either the name is refused, or the closed forms agree"""
+    import re
+    import sympy as sp
+    import z3
+    from vlib.s2z import Tr, at_n
+    out = {"records": [], "stats": smt.new_stats(), "checked": 0, "mutants": 0, "refusals": []}
+    base = polar_iface.closed_forms(RENAME_BASE, ["y", "w"])
+    for nm in RENAME_TO:
+        text = re.sub(r"\bw\b", nm, RENAME_BASE)
+        res = polar_iface.closed_forms(text, ["y"])
+        if res["exc"] or "cf" not in res["goals"].get("y", {}):
+            out["refusals"].append({"id": f"rename:{nm}", **(res["exc"] or res["goals"]["y"].get("exc", {"type": "Timeout", "msg": "", "where": ""}))})
+            continue
+        a, b = sp.sympify(base["goals"]["y"]["cf"]), sp.sympify(res["goals"]["y"]["cf"])
+        for k in range(4):
+            tag = f"rename:w->{nm}:E(y):n={k}"
+            try:
+                t = Tr(uf=True)
+                ar, ai = t.tr(at_n(a, k))
+                br, bi = t.tr(at_n(b, k))
+                v, model = smt.decide(t.constraints() + [ar != br], out["stats"], 20000, tag=tag, keep_sample=False)
+            except Exception as e:  # noqa
+                v = "sat" if sp.simplify(at_n(a, k) - at_n(b, k)) != 0 else "unsat"
+            out["checked"] += 1
+            if v == "sat":
+                out["records"].append({"kind": "violation", "key": f"reserved-variable-name|{nm}", "tag": tag,
+                                       "what": f"renaming the variable w to '{nm}' changes E(y) at n={k}: {at_n(a, k)} becomes {at_n(b, k)} (closed form {str(b)[:100]})", "replay": {"text": text, "name": nm, "n": k}})
+                break
+    return out
+
+
 def main():
     run = Run("C19", "translation_validation")
     work = []
@@ -286,6 +322,7 @@ def main():
     for j, (pid, text, goals) in enumerate(progs):
         work.append((job_rewrite, {"id": pid, "text": text, "goals": [g for g in goals if g != "@vars"], "N": 3, "closed_forms": (not run.quick) or pid.startswith("x")}, f"rewrite/{pid}"))
     work.append((job_reject, None, "reject"))
+    work.append((job_rename, None, "rename"))
     if run.args.only:
         work = [w for w in work if run.args.only in w[2]]
 
@@ -297,7 +334,7 @@ def main():
     checked = muts = variants = nprog = rejected = 0
     for (f, arg, name), (st, val) in zip(work, results):
         if st != "ok":
-            run.inconc(f"{name}: job {st} {str(val)[:300] if val else ''}")
+            run.job_failed(name, st, val)
             continue
         run.add_stats(val["stats"])
         checked += val["checked"]
